@@ -25,6 +25,9 @@ TRUSTED = [
 ]
 
 
+EXTRA_TARGETS = {}
+
+
 def registry():
     import checks_core as cc
     reg = {
@@ -59,6 +62,11 @@ def registry():
         # functions run after whichever check function is registered for the property
         for k, fns in getattr(mod, 'EXTRAS', {}).items():
             extras.setdefault(k, []).extend(fns)
+            # an extra may replay its sessions on a driver of its own (it switches `ctx.driver`
+            # around its sessions): `EXTRA_DRIVERS = [exe, ...]` are built with the property
+            for d in getattr(mod, 'EXTRA_DRIVERS', []):
+                if d not in EXTRA_TARGETS.setdefault(k, []):
+                    EXTRA_TARGETS[k].append(d)
     for k, fns in extras.items():
         if k in reg:
             reg[k] = (_with_extras(reg[k][0], fns),) + tuple(reg[k][1:])
@@ -229,7 +237,8 @@ def main():
     ctx = lib.Ctx(args.prop, tier, seed)
     ctx.driver = driver
     try:
-        lean = lib.lean_side(args.prop, thorough=(tier == 'thorough'), driver=driver)
+        lean = lib.lean_side(args.prop, thorough=(tier == 'thorough'), driver=driver,
+                             extra_targets=EXTRA_TARGETS.get(args.prop, ()))
     except Exception:  # noqa: BLE001
         traceback.print_exc()
         return 2
